@@ -89,7 +89,7 @@ class C14(F.PropCheck):
     pid = 'C14'; gen_groups = ['C14Vars']; prop_file = 'Properties_C14'
     IN = {'CFG': 0, 'SEG': 1, 'NEWCONN': 2}
     OUT = {0: 'SEG', 1: 'CMD', 2: 'FAULT'}
-    quick_cases = 1200; thorough_cases = 8000
+    quick_cases = 900; thorough_cases = 8000
     trusted_extra = ['C14 driver harness/drv/c14.c + harness/wrap/c14_cfgmode_wrap.c (supla_esp_cfgmode.c compiled as is, accessor for the '
                      'private parser state); real connect/recv/disconnect callbacks, supla_esp_cfg_save on the flash double, MQTT build configuration; '
                      'segments are exact-size heap buffers; two builds: clang -O1 ASan+UBSan (stack-use-after-return on, -fwrapv, signed overflow '
